@@ -437,7 +437,11 @@ class DtsAccessor:
             sections=sections,
             func=func,
             dataarray=dataarray,
-            subtract_from_dataarray=subtract_from_label,
+            subtract_from_dataarray=(
+                None
+                if subtract_from_label is None
+                else self._obj[subtract_from_label]
+            ),
             reference_dataset=reference_dataset,
             subtract_reference_from_dataarray=temp_err,
             ref_temp_broadcasted=ref_temp_broadcasted,
